@@ -95,7 +95,9 @@ constexpr bool is_perfect_square(uint64_t n) {
     uint64_t prev = n / 2u;
     while (true) {
         const uint64_t curr = (prev + n / prev) / 2u;
-        if (curr * curr == n) {
+        // Compare by division: `curr * curr` can wrap around 2^64 for large `n`, and a wrapped
+        // product that happens to equal `n` would misclassify a non-square (even a prime).
+        if (n / curr == curr && n % curr == 0u) {
             return true;
         }
         if (curr >= prev) {
